@@ -9,6 +9,7 @@ import (
 	"fmt"
 	"os"
 	"runtime/debug"
+	"sort"
 	"strconv"
 	"strings"
 
@@ -36,6 +37,9 @@ func main() {
 		*tier = "quick"
 	}
 	seed, _ := strconv.ParseInt(os.Getenv("VERIF_SEED"), 10, 64)
+	if strings.Contains(*prop, ",") || *prop == "all" {
+		os.Exit(runMany(*prop, *tier, seed))
+	}
 	f, ok := rules.Props[*prop]
 	if !ok {
 		fmt.Fprintf(os.Stderr, "unknown property %q\n", *prop)
@@ -78,6 +82,10 @@ func main() {
 			run.Assumptions = append(run.Assumptions, "canonical names (alpha-renaming through the type checker's Defs/Uses, second load with an overlay): "+strings.Join(load.Renames, "; "))
 			fmt.Printf("NOTE property=%s: %d renamed declarations read under their recorded names: %s\n", *prop, len(load.Renames), strings.Join(load.Renames, "; "))
 		}
+		if len(load.Inlined) > 0 {
+			run.Assumptions = append(run.Assumptions, "helpers the rules do not know are read inlined at their call sites (source-to-source, semantics-preserving forms only; load/inline.go): "+strings.Join(load.Inlined, "; "))
+			fmt.Printf("NOTE property=%s: %d calls of new helpers read inlined: %s\n", *prop, len(load.Inlined), strings.Join(load.Inlined, "; "))
+		}
 		env, err := rules.NewEnv(prog, run, *tier)
 		if err != nil {
 			// a sibling lost its overall shape: the anchor the property rests on is gone
@@ -93,4 +101,54 @@ func main() {
 		code = run.Finish()
 	}()
 	os.Exit(code)
+}
+
+// runMany decides several properties in one process (one load): a development aid for sweeps over
+// many variants of the tree (tools/mutsweep.py). Prints "RC prop=<id> rc=<n>" per property; the
+// exit status is the largest. The registered commands always decide one property per process.
+func runMany(list, tier string, seed int64) int {
+	var ids []string
+	if list == "all" {
+		for id := range rules.Props {
+			ids = append(ids, id)
+		}
+	} else {
+		ids = strings.Split(list, ",")
+	}
+	sort.Strings(ids)
+	prog, err := load.Load(load.Options{})
+	if err != nil {
+		fmt.Printf("LOAD-FAILED: %v\n", err)
+		return 2
+	}
+	worst := 0
+	for _, id := range ids {
+		f, ok := rules.Props[id]
+		if !ok {
+			continue
+		}
+		code := 2
+		func() {
+			defer func() {
+				if r := recover(); r != nil {
+					fmt.Printf("CHECKER-PANIC property=%s: %v\n", id, r)
+					code = 2
+				}
+			}()
+			run := report.NewRun(id, tier, seed)
+			env, err := rules.NewEnv(prog, run, tier)
+			if err != nil {
+				run.Violation("R-SHAPE", "sibling shape", "", err.Error())
+				code = run.Finish()
+				return
+			}
+			f(env)
+			code = run.Finish()
+		}()
+		fmt.Printf("RC prop=%s rc=%d\n", id, code)
+		if code > worst {
+			worst = code
+		}
+	}
+	return worst
 }
